@@ -25,7 +25,9 @@ REQUIRED_COUNTERS = {"probe_in_enter": {"quick": 300, "thorough": 3000},
                      "probe_in_exit_exc": {"quick": 100, "thorough": 1000},
                      "probe_in_aexit": {"quick": 100, "thorough": 1000},
                      "probe_in_unpack_iter": {"quick": 100, "thorough": 1000},
-                     "probe_in_result_del": {"quick": 100, "thorough": 1000}}
+                     "probe_in_result_del": {"quick": 100, "thorough": 1000},
+                     "frames_with_c_level_manager": {"quick": 300, "thorough": 3000},
+                     "frames_with_alias_named_exit": {"quick": 300, "thorough": 3000}}
 SHARD_TIMEOUT = {"quick": 400, "thorough": 5400}
 INTERPS = ["3.12", "3.11", "3.10", "3.9"]
 
@@ -93,6 +95,13 @@ def worker(spec):
             if i >= len(want_frames):
                 break
             exp = run.truth(id(fr.pyframe))
+            kinds = set(type(m).__name__ for m, _, _ in exp)
+            if "SC" in kinds:
+                res.count("frames_with_c_level_manager")
+            if "SX" in kinds or "AX" in kinds:
+                res.count("frames_with_alias_named_exit")
+            if "SF" in kinds or "AF" in kinds:
+                res.count("frames_with_falsy_manager")
             if len(exp) >= 11:
                 res.count("obs_with_11_or_more_active_contexts")
             if exp:
